@@ -51,6 +51,9 @@ def _classes() -> Dict[str, Any]:
 
 
 # ------------------------------------------------------------------------------- the option list
+NOT_MODELLED: List[str] = []        # options whose shape Config.tla has no kind for (reported in the evidence, never exit 2)
+
+
 def option_table() -> List[Dict[str, Any]]:
     """The options of the real parser that a config file can set, with what the model needs to know.
     Actions of the same class writing to the same attribute are the names of ONE option (--add-package /
@@ -60,6 +63,7 @@ def option_table() -> List[Dict[str, Any]]:
     parser = get_parser()
     all_strings = [s for a in parser._actions for s in a.option_strings]
     all_keys = {k for a in parser._actions for k in parser.get_possible_config_keys(a)}
+    NOT_MODELLED.clear()
     groups: Dict[Tuple[str, type], List[Any]] = {}
     for a in parser._actions:
         keys = parser.get_possible_config_keys(a)
@@ -79,8 +83,15 @@ def option_table() -> List[Dict[str, Any]]:
             kind = "append"
         elif isinstance(a, argparse._StoreAction) and a.nargs is None:
             kind = "store"
+        elif a.nargs == 0:
+            # an action class we have never seen: what matters is how the option BEHAVES; it takes no value, so it is
+            # given as `--name` on the command line and as `name = true` in a file, like any flag
+            kind = "flag"
+        elif a.nargs is None:
+            kind = "store"
         else:
-            raise MachineryError(f"option {a.option_strings}: action {type(a).__name__} is not modelled in Config.tla")
+            NOT_MODELLED.append(f"{a.option_strings} ({type(a).__name__}, nargs={a.nargs!r})")
+            continue
         vk = "int" if a.type is int else ("choice" if a.choices else "str")
         abbr = longs[0][:-1]
         unambiguous = len(abbr) > 3 and [s for s in all_strings if s.startswith(abbr)] == [longs[0]]
@@ -134,6 +145,31 @@ def plain_safe(t: str) -> bool:
         and not (len(t) >= 2 and t[0] == t[-1] and t[0] in "'\"")
 
 
+def unknown_line(o: Dict[str, Any], scn: Dict[str, Any]) -> str:
+    """The line carrying the scenario's unknown key ('' when there is none)."""
+    fmt, unk = scn["fmt"], scn["unknown"]
+    q = (lambda t: py_quote(t, '"')) if fmt == "toml" else (lambda t: t if plain_safe(t) else py_quote(t, "'"))
+    if unk == "fresh":
+        return f"no-such-option = {q('1')}"
+    if len(unk) == 1:                                 # a short command-line flag used as a key (v, q, W ...)
+        return f"{unk} = {q('1')}"
+    if unk == "dest":
+        return f"{o['_']['dest']} = {q('1')}"
+    if unk == "abbrev":                               # html-outpu = <a value the real option would accept>
+        val = {"flag": "true", "count": "1"}.get(o["kind"]) or concrete(o, 1)
+        return f"{o['_']['abbr'][2:]} = {q(val)}"
+    return ""
+
+
+def second_file(o: Dict[str, Any], scn: Dict[str, Any]) -> Dict[str, str]:
+    """scn.twice: the same unknown key in another default config file of the directory (other format)."""
+    if not scn.get("twice"):
+        return {}
+    other = "cfg" if scn["fmt"] == "toml" else "toml"
+    s2 = dict(scn, fmt=other)
+    return {FILES[other][0]: f"[{FILES[other][1]}]\n{unknown_line(o, s2)}\n"}
+
+
 def file_text(o: Dict[str, Any], scn: Dict[str, Any]) -> str:
     fmt, kind, style = scn["fmt"], o["kind"], scn["fstyle"]
     key = o["_"]["longs"][scn.get("fname", 1) - 1][2:]
@@ -182,12 +218,9 @@ def file_text(o: Dict[str, Any], scn: Dict[str, Any]) -> str:
             else:                                   # scalar: one value, not a list
                 rhs = py_quote(ts[0], '"') if fmt == "toml" else ts[0]
         lines.append(f"{key} = {rhs}" if not rhs.startswith("\n") else f"{key} ={rhs}")
-    if scn["unknown"] == "fresh":
-        lines.append("no-such-option = 1" if fmt != "toml" else 'no-such-option = "1"')
-    elif len(scn["unknown"]) == 1:                    # a short command-line flag used as a key (v, q, W ...)
-        lines.append(f"{scn['unknown']} = 1" if fmt != "toml" else f'{scn["unknown"]} = "1"')
-    elif scn["unknown"] == "dest":
-        lines.append(f"{o['_']['dest']} = 1" if fmt != "toml" else f'{o["_"]["dest"]} = "1"')
+    uline = unknown_line(o, scn)
+    if uline:
+        lines.append(uline)
     return "\n".join(lines) + "\n"
 
 
@@ -301,7 +334,8 @@ def evaluate(run: Runner, o: Dict[str, Any], scn: Dict[str, Any], ref: Dict[str,
     if scn.get("via") == "config":                       # not one of the default names: found through --config only
         fname = "conf_" + fname
         argv = [f"--config={fname}"] + argv
-    got = run.run(argv, {fname: text})
+    files = {fname: text, **second_file(o, scn)}
+    got = run.run(argv, files)
     failed: List[str] = []
     obs: Dict[str, Any] = {"exit": got["exit"], "warn": got["warn"]}
     if got["exit"] != ref["abort"]:
@@ -318,7 +352,7 @@ def evaluate(run: Runner, o: Dict[str, Any], scn: Dict[str, Any], ref: Dict[str,
                 failed.append("AccumulateInOrder")
         if bool(got["warn"]) != ref["warn"]:
             failed.append("UnknownKeyWarned")
-    return {"argv": argv, "file": {fname: text}, "observed": obs, "failed": failed}
+    return {"argv": argv, "file": files, "observed": obs, "failed": failed}
 
 
 # ------------------------------------------------------------------------------------ known findings
@@ -569,7 +603,7 @@ def part_merge(ctx: Ctx, rng: random.Random) -> int:
             ctx.violation({"invariant": out["failed"][0], "failed": out["failed"], "kind": "merge", "scn": scn,
                            "argv": out["argv"], "file": out["file"], "expected": ref, "observed": out["observed"],
                            "key": f"merge:{scn['key']}:{scn['fmt']}:{scn.get('via')}:{scn['fstyle']}:{scn['spell']}:{scn['unknown']}:"
-                                  f"{scn['file']['v']}:{scn['cli']['v']}:{scn.get('place')}:{scn.get('fname')}{scn.get('cname')}:{out['failed']}"})
+                                  f"{scn.get('twice')}:{scn['file']['v']}:{scn['cli']['v']}:{scn.get('place')}:{scn.get('fname')}{scn.get('cname')}:{out['failed']}"})
         else:
             ob = out["observed"]
             if ob.get("abs") is not None and (ob["abs"] != impl["val"] or bool(ob["warn"]) != impl["warn"]):
@@ -579,7 +613,7 @@ def part_merge(ctx: Ctx, rng: random.Random) -> int:
                 ctx.sample({"kind": "merge", "argv": out["argv"], "file": out["file"], "effective": ref,
                             "observed": {k: v for k, v in ob.items()}}, limit=8)
     ctx.extra.pop("_s_unk", None)
-    ctx.extra["merge"] = {"options_from_parser": len(opts), "options_exercised": len(seen_opts), "scenarios": len(recs),
+    ctx.extra["merge"] = {"options_from_parser": len(opts), "options_not_modelled": list(NOT_MODELLED), "options_exercised": len(seen_opts), "scenarios": len(recs),
                           "scenarios_by_kind": kinds, "scenarios_matching_known_finding_in_spec": spec_kf,
                           "option_keys": sorted(seen_opts)}
     if len(seen_opts) != len(opts):
@@ -589,7 +623,7 @@ def part_merge(ctx: Ctx, rng: random.Random) -> int:
     o = by_key["project-name"]
     scn = {"opt": 0, "key": "project-name", "kind": "store", "fmt": "toml", "via": "default", "file": {"has": True, "v": [1]},
            "fstyle": "string", "cli": {"has": False, "v": []}, "spell": "none", "unknown": "none", "place": "main",
-           "fname": 1, "cname": 1}
+           "fname": 1, "cname": 1, "twice": False}
     e_good = evaluate(run, o, scn, {"val": [1], "warn": False, "abort": False})
     e_bad = evaluate(run, o, scn, {"val": [2], "warn": False, "abort": False})
     bad2 = evaluate(run, o, scn, {"val": [1], "warn": True, "abort": False})["failed"]
